@@ -228,6 +228,9 @@ fn check_case(ctx: &mut Ctx, router: &VerifRouter, history: &[Op], status: u16, 
             if status == 204 {
                 if !cl.is_empty() { problems.push(("framing/204/content-length-present".into(), format!("{cl:?}"))) }
                 if raw.len() != p.consumed { problems.push(("framing/204/body-present".into(), String::new())) }
+                // "a well-formed HTTP/1.1 message": a 204 has no content, so no coding of it either (RFC 9112 6.1: a server MUST NOT
+                // send Transfer-Encoding in a 204) - a client that honours the header waits for chunks that never come
+                if !p.header_all("Transfer-Encoding").is_empty() { problems.push(("framing/204/transfer-encoding-present".into(), format!("{:?}", p.header_all("Transfer-Encoding")))) }
             } else if method == "HEAD" {
                 if raw.len() != p.consumed { problems.push(("framing/HEAD/body-present".into(), String::new())) }
                 if cl.len() > 1 { problems.push((format!("framing/{clpat}/duplicate-content-length"), format!("{cl:?}"))) }
